@@ -27,18 +27,24 @@ func (c *Component) checkpointSession(sess *SessionState) {
 		return
 	}
 
+	// The image is marshalled and its place in the session's write order is
+	// taken under the same hold of sess.mu. The DHCPv4 and DHCPv6 paths
+	// checkpoint one session from different goroutines; if the slot were
+	// taken after the unlock, a checkpoint marshalled earlier could be issued
+	// later and overwrite the newer image in opdb.
 	sess.mu.Lock()
+	defer sess.mu.Unlock()
 	sessID := sess.SessionID
 	data, err := json.Marshal(sess)
-	sess.mu.Unlock()
 	if err != nil {
 		c.logger.Warn("Failed to marshal session for checkpoint", "session_id", sessID, "error", err)
 		return
 	}
 
-	// Off the packet path, but ordered against later checkpoints and the
-	// delete of the same session: a write still in flight when the session
-	// is released must not land after the delete.
+	// Off the packet path (PutAsync only reserves the slot here), but ordered
+	// against later checkpoints and the delete of the same session: a write
+	// still in flight when the session is released must not land after the
+	// delete.
 	c.checkpointWriter().PutAsync(c.Ctx, opdb.NamespaceIPoESessions, sessID, data, func(err error) {
 		c.logger.Warn("Failed to checkpoint session", "session_id", sessID, "error", err)
 	})
